@@ -11,8 +11,11 @@ Failures are classified by finding_class_C06_* (coq/model/C06Spec.v) through the
 import argparse
 import ast
 import collections
+import contextlib
 import copy
 import inspect
+import io
+import json
 import math
 import os
 import tempfile
@@ -81,7 +84,7 @@ def namespace():
         ns[n] = Stub(n)
     ns["math"] = math
     ns["ArgumentParser"] = argparse.ArgumentParser
-    ns["loads"] = lambda s: s
+    ns["loads"] = json.loads       # README: the emitted argparse function is used with `from json import loads`
     ns["pickle"] = Stub("pickle")
     return ns
 
@@ -390,6 +393,143 @@ def argparse_checks(ir, o, ns, name):
             want = {"int": int, "float": float, "bool": bool, "str": None}[t]
             ok = a.type is want or (t == "str" and a.type is str)
             out.append(("option-type", ok, "" if ok else "option --%s type %r, IR says %s" % (n, a.type, t)))
+    out += argparse_run_checks(ir, ns, parser, by)
+    return out
+
+
+# ---- the registered options at work: what the parser does with the IR's own defaults
+def data_value(v):
+    """is v a value a command line can carry (None, bool, int, float, str and list / tuple / str-keyed dict of such)"""
+    if v is None or isinstance(v, (bool, int, str)):
+        return True
+    if isinstance(v, float):
+        return v == v and v not in (float("inf"), float("-inf"))
+    if isinstance(v, (list, tuple)):
+        return all(data_value(x) for x in v)
+    if isinstance(v, dict):
+        return all(isinstance(k, str) and data_value(x) for k, x in v.items())
+    return False
+
+
+def plain(v):
+    """the value with the list / tuple distinction dropped (JSON has one sequence type); floats by repr, bool is not int"""
+    if isinstance(v, (list, tuple)):
+        return ["seq"] + [plain(x) for x in v]
+    if isinstance(v, dict):
+        return ["map"] + sorted((k, plain(x)) for k, x in v.items())
+    return [type(v).__name__, repr(v)]
+
+
+def is_loads(t):
+    return t is json.loads
+
+
+def text_of(v, t):
+    """how the value v is written on a command line for an option whose registered type is t"""
+    if is_loads(t):
+        return json.dumps(v)
+    return v if isinstance(v, str) else str(v)
+
+
+def dummy_text(a):
+    """some text the option accepts (for a required option about whose value the IR says nothing)"""
+    if a.choices:
+        return text_of(list(a.choices)[0], a.type)
+    for cand in ("5", "x", "null"):
+        try:
+            (a.type or str)(cand)
+            return cand
+        except Exception:  # noqa
+            pass
+    return "5"
+
+
+def quiet_parse(parser, argv):
+    """-> ('ok', dict) | ('exit', status, message) | ('raised', exception name)"""
+    err = io.StringIO()
+    try:
+        with contextlib.redirect_stderr(err), contextlib.redirect_stdout(io.StringIO()):
+            return ("ok", vars(parser.parse_args(argv)))
+    except SystemExit as e:
+        return ("exit", e.code, err.getvalue().strip().split("\n")[-1][:160])
+    except Exception as e:  # noqa
+        return ("raised", type(e).__name__)
+
+
+def ir_data_default(p):
+    """('value', v) when the IR gives the parameter an explicit default that is data (a scalar, or back-tick quoted code
+    that evaluates to data: a list / tuple / dict display, a number, a str), else None"""
+    ed = expected_default(p)
+    if ed[0] != "value" or not data_value(ed[1]):
+        return None
+    d = p.get("default")
+    if isinstance(d, str) and not is_code(d) and d not in NONE_LIKE and ed[1] is not None:
+        # a plain str default: the words as they are
+        return ("value", d)
+    return ed
+
+
+def argparse_run_checks(ir, ns, parser, by):
+    """default-accepted: for every option whose parameter has an explicit data default, the registered `type` applied to the
+                      default written as text gives the default back (a bool only has to be accepted: bool('False') is True),
+                      and a registered `choices` contains it;
+    parse-defaults:   parse_args with (only) the required options given - each as the text of its own default, or some text
+                      its type accepts - does not exit, and every parameter with an explicit data default comes out with it;
+    parse-given:      parse_args with every option given as the text of its own default does not exit and gives the defaults."""
+    out = []
+    opts = []
+    for n, p in ir["params"].items():
+        a = by.get("--" + n)
+        if a is None or a.option_strings != ["--" + n]:
+            return out                                     # options-order already failed
+        opts.append((n, p, a, ir_data_default(p)))
+    for n, p, a, dv in opts:
+        if dv is None or dv[1] is None:
+            continue
+        conv = a.type or str
+        members = list(dv[1]) if isinstance(a, argparse._AppendAction) and isinstance(dv[1], (list, tuple)) else [dv[1]]
+        ok, what = True, ""
+        for v in members:
+            try:
+                got = conv(text_of(v, a.type))
+            except Exception as e:  # noqa
+                ok, what = False, "option --%s: the registered type %s rejects the parameter's own default %r (%s)" % (
+                    n, getattr(a.type, "__name__", a.type), v, type(e).__name__)
+                break
+            if not isinstance(v, bool) and plain(got) != plain(v):
+                ok, what = False, "option --%s: the registered type %s turns the default %r, written as text, into %r" % (
+                    n, getattr(a.type, "__name__", a.type), v, got)
+                break
+            if a.choices is not None and got not in a.choices:
+                ok, what = False, "option --%s: the default %r is not among the registered choices %r" % (n, v, tuple(a.choices))
+                break
+        out.append(("default-accepted", ok, what))
+
+    def given(n, a, dv):
+        if dv is not None and dv[1] is not None:
+            v = dv[1]
+            if isinstance(a, argparse._AppendAction) and isinstance(v, (list, tuple)):
+                return [x for e in v for x in ("--" + n, text_of(e, a.type))]
+            return ["--" + n, text_of(v, a.type)]
+        return ["--" + n, dummy_text(a)]
+
+    def compare(clause, res, supplied):
+        if res[0] != "ok":
+            out.append((clause, False, "parse_args(%r) %s" % (supplied, "exited with status %r: %s" % res[1:] if res[0] == "exit"
+                                                              else "raised %s" % res[1])))
+            return
+        out.append((clause, True, ""))
+        for n, p, a, dv in opts:
+            if dv is None:
+                continue
+            got = res[1].get(a.dest, "<missing>")
+            ok = plain(got) == plain(dv[1])
+            out.append((clause, ok, "" if ok else "parse_args(%r): %s = %r, the IR's default is %r" % (supplied, n, got, dv[1])))
+
+    argv = [x for n, p, a, dv in opts if a.required for x in given(n, a, dv)]
+    compare("parse-defaults", quiet_parse(parser, argv), argv)
+    argv = [x for n, p, a, dv in opts if dv is not None and dv[1] is not None or a.required for x in given(n, a, dv)]
+    compare("parse-given", quiet_parse(parser, argv), argv)
     return out
 
 
@@ -508,3 +648,21 @@ def oracle(rng, tier):
         "histogram": dict(hist),
         "samples": [{k: c[k] for k in ("kind", "opts")} for c in cases[:5]],
     }
+
+
+if __name__ == "__main__":
+    import random
+    import sys
+    import time
+    tier = sys.argv[1] if len(sys.argv) > 1 else "quick"
+    seed = int(sys.argv[2]) if len(sys.argv) > 2 else 1
+    t0 = time.time()
+    res = oracle(random.Random(seed), tier)
+    print({k: res[k] for k in ("evaluations", "distinct_nontrivial")}, "%.1fs" % (time.time() - t0))
+    for k, v in sorted(res["histogram"].items()):
+        if "FAIL" in k or k.startswith(("fails:", "stratum:", "spec")):
+            print("   %-70s %d" % (k, v))
+    bad = [f for f in res["failures"] if f["class"] is None]
+    print("failures with class None:", len(bad))
+    for f in bad[:int(sys.argv[3]) if len(sys.argv) > 3 else 12]:
+        print("  VIOLATION", json.dumps(f, default=str)[:1500])
